@@ -672,7 +672,8 @@ func hasFullSchema(piece string) bool {
 	for _, k := range []string{"id:", "a:", "b:", "c:", "d:", "e:", "f:", "g:", "x:", "y:", "z:"} {
 		found := false
 		for _, l := range strings.Split(piece, "\n") {
-			if strings.HasPrefix(strings.TrimSpace(l), k) || strings.Contains(l, "{"+k) || strings.Contains(l, ", "+k) {
+			qk := "\"" + strings.TrimSuffix(k, ":") + "\":"
+			if strings.HasPrefix(strings.TrimSpace(l), k) || strings.HasPrefix(strings.TrimSpace(l), qk) || strings.Contains(l, "{"+k) || strings.Contains(l, ", "+k) || strings.Contains(l, "{"+qk) || strings.Contains(l, ", "+qk) {
 				found = true
 				break
 			}
